@@ -22,3 +22,60 @@ def add(run, tier):
     import contracts.dispatcher as cdisp
     wm = importlib.import_module('calmjs.parse.unparsers.walker')
     verify_functions(run, [c for c in cb.build(bm, pm) if c.funcname.startswith('BaseUnparser.')] + cb.build_init(bm) + cw.build(wm) + cdisp.build(wm), {}, {}, tier=tier)
+    # ... and the Token rules that iterate over child lists (contracts/ruletypes.py): JoinAttr / ElisionJoinAttr for lists of any
+    # length, the single-walk rules for every kind of value -- what carries the per-production runs (lists of length 0..3) to all lists
+    import contracts.ruletypes as crt
+    rm = importlib.import_module('calmjs.parse.ruletypes')
+    verify_functions(run, crt.build(rm), {}, {}, tier=tier)
+    rule_constants(run, rm, um)
+
+
+def rule_constants(run, rm, um):
+    """What the ruletypes contracts take as given about constants of the real module: the surrogate separator of ElisionJoinAttr
+    is one comma, every ElisionJoinAttr of the stock definitions carries a tuple, Token.__init__ keeps its
+    arguments (CommentsAttr defaults to the comments attribute)."""
+    import time
+    t0 = time.time()
+
+    def ob(name, ok, detail):
+        if ok:
+            run.discharged(name, 'E3/constants', 'exhaustive', int((time.time() - t0) * 1000), detail=detail)
+        else:
+            run.failed(name, 'E3/constants', 'constant', dict(detail=detail), replayed=True, solver_output=detail)
+    sep = getattr(rm.ElisionJoinAttr, 'sep', None)
+    ob('rules.elision_separator_is_one_comma',
+       isinstance(sep, rm.Elision) and getattr(sep, 'value', None) == 1,
+       'ElisionJoinAttr.sep = %r value=%r _token_map=%r' % (sep, getattr(sep, 'value', None), getattr(sep, '_token_map', None)))
+    bad = []
+    seen = 0
+
+    def scan(x, where):
+        nonlocal seen
+        if isinstance(x, rm.ElisionJoinAttr):
+            seen += 1
+            if not isinstance(x.value, tuple):
+                bad.append(where)
+        if isinstance(x, rm.Token) and isinstance(getattr(x, 'value', None), tuple):
+            for y in x.value:
+                scan(y, where)
+        if isinstance(x, (tuple, list)):
+            for y in x:
+                scan(y, where)
+    for name, defn in um.definitions.items():
+        scan(defn, name)
+    ob('rules.elision_join_value_is_tuple', not bad and seen >= 1, '%d ElisionJoinAttr rules in unparsers.es5.definitions; without a tuple: %s' % (seen, bad))
+    probs = []
+    for cls in (rm.Attr, rm.Text, rm.JoinAttr, rm.ElisionToken, rm.ElisionJoinAttr, rm.Optional, rm.Operator):
+        t = cls(attr='a', value=('v',), pos=3)
+        if (t.attr, t.value, t.pos) != ('a', ('v',), 3):
+            probs.append(cls.__name__)
+        t = cls('a', ('v',), 3)
+        if (t.attr, t.value, t.pos) != ('a', ('v',), 3):
+            probs.append(cls.__name__ + ' positional')
+        t = cls()
+        if (t.attr, t.value, t.pos) != (None, None, 0):
+            probs.append(cls.__name__ + ' defaults')
+    c = rm.CommentsAttr()
+    if (c.attr, c.value, c.pos) != ('comments', None, 0):
+        probs.append('CommentsAttr defaults')
+    ob('rules.token_init_keeps_arguments', not probs, 'Token.__init__ over 8 classes x keyword / positional / default: %s' % (probs or 'ok'))
